@@ -24,6 +24,7 @@ type CaseCtx struct {
 	Seed    int64 // VERIF_SEED
 	Case    int
 	Verbose bool
+	Dir     string // work directory of this run (cross-process exchange files)
 }
 
 // CaseSeed derives the case PRNG seed from (VERIF_SEED, property, case number).
@@ -227,7 +228,7 @@ func cmdWorker(args []string) int {
 	seen := map[uint64]bool{}
 	for i := *shard; i < total; i += *nshards {
 		fmt.Printf("CASE %d\n", i) // unbuffered: survives a process-fatal error
-		c := &CaseCtx{Prop: *prop, Tier: *tier, Seed: *seed, Case: i}
+		c := &CaseCtx{Prop: *prop, Tier: *tier, Seed: *seed, Case: i, Dir: *dir}
 		res := runCase(p, c)
 		ev := res.Evals
 		if ev == 0 {
